@@ -89,3 +89,26 @@ where
         other => json!({"error": format!("unknown op {}", other)}),
     }
 }
+
+/// PLAIN round trip of generated enums and aliases (C12): JSON document -> value -> PLAIN
+/// text -> value
+pub fn run_plain<T>(req: &Value) -> Value
+where
+    T: Serialize + DeserializeOwned + Debug + PartialEq + conjure_object::Plain + conjure_object::FromPlain,
+{
+    use conjure_object::ToPlain;
+    let mut out = vec![];
+    for d in req["docs"].as_array().unwrap() {
+        let doc = d.as_str().unwrap();
+        match conjure_serde::json::client_from_str::<T>(doc) {
+            Err(e) => out.push(json!({"skip": e.to_string()})),
+            Ok(v) => {
+                let text = v.to_plain();
+                let back = T::from_plain(&text).ok();
+                let same = back.as_ref().map(|b| *b == v || format!("{:?}", b) == format!("{:?}", v)).unwrap_or(false);
+                out.push(json!({"plain": text, "parsed": back.is_some(), "roundtrip": same, "dbg": format!("{:?}", v).chars().take(120).collect::<String>()}));
+            }
+        }
+    }
+    json!({"results": out})
+}
